@@ -505,9 +505,7 @@ theorem any_perm {α : Type} (f : α → Bool) {l l' : List α} (h : l ~ l') : l
 
 /-- the roll assembled when no check fails -/
 def rollOf (o : Opts) (notes : List Note) (N : Int) : Roll :=
-  { rows := if o.pianoRange then
-      (if rowsFull o notes < 109 then rowsFull o notes else 109) - (if rowsFull o notes < 21 then rowsFull o notes else 21)
-      else rowsFull o notes
+  { rows := if o.pianoRange then slicedRows (rowsFull o notes) else rowsFull o notes
     cols := N
     rowStart := rowStartOf o
     binary := o.binary
@@ -570,8 +568,36 @@ theorem cell_congr (r r' : Roll) (h1 : r.rows = r'.rows) (h2 : r.cols = r'.cols)
 
 /-- `pr_idx[idx.argsort()]` is the table of index rows in input order -/
 theorem idxOf_eq (o : Opts) (notes : List Note) :
-    PianoRoll.idxOf o notes = notes.map (idxRow o (lowestOf o notes) (t0Of o notes) (rowStartOf o)) := by
+    PianoRoll.idxOf o notes = notes.map (idxRow o (lowestOf o notes) (t0Of o notes) (idxStartOf o)) := by
   unfold PianoRoll.idxOf
-  exact unsort_sorted (idxRow o (lowestOf o notes) (t0Of o notes) (rowStartOf o)) notes
+  exact unsort_sorted (idxRow o (lowestOf o notes) (t0Of o notes) (idxStartOf o)) notes
+
+/-! ### the generated constants (Gen/C13Tables.lean) have the documented values -/
+
+theorem tbl_lowest : Gen.C13_LOWEST_PITCH = 0 := by decide
+theorem tbl_highest : Gen.C13_HIGHEST_PITCH = 127 := by decide
+theorem tbl_piano_lo : Gen.C13_PIANO_LO = 21 := by decide
+theorem tbl_piano_hi : Gen.C13_PIANO_HI = 109 := by decide
+theorem tbl_idx_start : Gen.C13_IDX_START = 0 := by decide
+theorem tbl_idx_start_piano : Gen.C13_IDX_START_PIANO = 21 := by decide
+theorem tbl_drum : Gen.C13_DRUM_CHANNEL = 9 := by decide
+theorem tbl_dec_full : Gen.C13_DEC_ROWS_FULL = 128 := by decide
+theorem tbl_dec_piano : Gen.C13_DEC_ROWS_PIANO = 88 := by decide
+theorem tbl_dec_init_full : Gen.C13_DEC_INIT_FULL = 0 := by decide
+theorem tbl_dec_init_piano : Gen.C13_DEC_INIT_PIANO = 21 := by decide
+theorem tbl_pc_rows : Gen.C13_PC_ROWS = 12 := by decide
+theorem tbl_pc_span : Gen.C13_PC_SPAN = 128 := by decide
+theorem tbl_pc_step : Gen.C13_PC_STEP = 12 := by decide
+theorem tbl_pc_mod : Gen.C13_PC_MOD = 12 := by decide
+theorem tbl_pc_slices : pcSlices = 11 := by decide
+
+/-- the index rows are offset by the first row of the slice -/
+theorem idxStartOf_eq (o : Opts) : idxStartOf o = rowStartOf o := by
+  unfold idxStartOf rowStartOf
+  rw [tbl_idx_start, tbl_idx_start_piano, tbl_piano_lo]
+
+theorem slicedRows_eq (M : Int) : slicedRows M = (if M < 109 then M else 109) - (if M < 21 then M else 21) := by
+  unfold slicedRows
+  rw [tbl_piano_lo, tbl_piano_hi]
 
 end C13
